@@ -3,14 +3,14 @@
    (the order insert(new)?/remove(old) of BTree::update, position 0 for unique indexes): they re-check against
    the source on every run. *)
 From Coq Require Import List ZArith String Bool.
-From Verif Require Import Uniq.Model Uniq.Proofs Uniq.Proofs2 Uniq.Proofs3 Uniq.Proofs4 Uniq.Conc Uniq.Run gen.Gen_Uniq.
+From Verif Require Import Uniq.Model Uniq.Proofs Uniq.Proofs2 Uniq.Proofs3 Uniq.Proofs4 Uniq.Conc Uniq.Conc2 Uniq.Run gen.Gen_Uniq.
 Import ListNotations.
 Open Scope list_scope.
 
 (* states reachable by any history of add/update/remove (accepted, rejected, storage faults) from the empty
    collection, with the B-tree update order the code has now *)
 Definition reachable_now (sch : schema) (ixs : list index) (s : state) : Prop :=
-  exists os, s = fst (run btree_update_insert_first sch (init ixs) os).
+  exists os, s = fst (run btree_update_insert_first update_compensates_failed_index sch (init ixs) os).
 
 (* (1) no two live documents share a key of a unique index, in every reachable state *)
 Theorem C04_unique_inv :
@@ -52,7 +52,7 @@ Print Assumptions C04_postings_are_derived.
 Theorem C04_rejected_noop :
   forall sch ixs s o s' e,
     wf_indexes sch ixs -> reachable_now sch ixs s ->
-    step btree_update_insert_first sch s o = (s', RErr e) ->
+    step btree_update_insert_first update_compensates_failed_index sch s o = (s', RErr e) ->
     st_docs s' = st_docs s /\ map fst (st_ix s') = map fst (st_ix s) /\
     (forall i k id, In id (lookup s' i k) <-> In id (lookup s i k)) /\
     (e <> EStorage -> st_poison s' = st_poison s).
@@ -63,7 +63,7 @@ Print Assumptions C04_rejected_noop.
 Theorem C04_value_released_remove :
   forall sch ixs s id s' i ix p' k d,
     wf_indexes sch ixs -> reachable_now sch ixs s ->
-    step btree_update_insert_first sch s (ORemove id NoFault) = (s', RRemoved true) ->
+    step btree_update_insert_first update_compensates_failed_index sch s (ORemove id NoFault) = (s', RRemoved true) ->
     get_doc (st_docs s) id = Some d ->
     nth_error (st_ix s') i = Some (ix, p') -> ix_unique ix = true -> In k (dkeys ix d) ->
     lookup s' i k = [].
@@ -73,7 +73,7 @@ Print Assumptions C04_value_released_remove.
 Theorem C04_value_released_update :
   forall sch ixs s id fs s' i ix p' k od nd a,
     wf_indexes sch ixs -> reachable_now sch ixs s ->
-    step btree_update_insert_first sch s (OUpdate id fs NoFault) = (s', ROk) ->
+    step btree_update_insert_first update_compensates_failed_index sch s (OUpdate id fs NoFault) = (s', ROk) ->
     get_doc (st_docs s) id = Some od -> get_doc (st_docs s') id = Some nd ->
     nth_error (st_ix s') i = Some (ix, p') -> ix_unique ix = true ->
     In k (dkeys ix od) -> ~ In k (dkeys ix nd) ->
@@ -86,7 +86,7 @@ Theorem C04_free_value_insertable :
     wf_indexes sch ixs -> reachable_now sch ixs s -> st_poison s = false ->
     set_fields sch empty_doc fs = inl d -> validate sch d = true ->
     (forall i ix p k, nth_error (st_ix s) i = Some (ix, p) -> ix_unique ix = true -> In k (dkeys ix d) -> lookup s i k = []) ->
-    exists s', step btree_update_insert_first sch s (OAdd fs NoFault) = (s', RId (st_next s + 1)).
+    exists s', step btree_update_insert_first update_compensates_failed_index sch s (OAdd fs NoFault) = (s', RId (st_next s + 1)).
 Proof. exact free_value_insertable. Qed.
 Print Assumptions C04_free_value_insertable.
 
@@ -167,7 +167,8 @@ Proof. repeat split; reflexivity. Qed.
 Print Assumptions C04_gen_add_shape.
 
 Theorem C04_gen_update_shape :
-  update_records_after_update = true /\ update_rollback_restores_or_poisons = true /\ update_only_touched_indexes = true /\
+  update_records_after_update = true /\ update_compensates_failed_index = true /\
+  update_rollback_restores_or_poisons = true /\ update_only_touched_indexes = true /\
   update_steps = ["missing_doc"; "empty_fields"; "doc_lock"; "load"; "set_fields"; "validate"; "intent"; "index_loop";
                   "rollback_on_index_error"; "storage_put"]%string.
 Proof. repeat split; reflexivity. Qed.
@@ -186,38 +187,76 @@ Definition hist0 : list op :=
    OUpdate 2 [("email"%string, VS (SText "a"))] NoFault].
 
 Theorem C04_remove_first_update_refuted :
-  exists s, s = fst (run false sch0 (init ixs0) hist0) /\
-            nth 2 (snd (run false sch0 (init ixs0) hist0)) ROk = RErr EUnique /\
+  exists s, s = fst (run false false sch0 (init ixs0) hist0) /\
+            nth 2 (snd (run false false sch0 (init ixs0) hist0)) ROk = RErr EUnique /\
             lookup s 0 (KS (SText "b")) = [] /\
             exists d, get_doc (st_docs s) 2 = Some d /\ d "email"%string = VS (SText "b").
 Proof. eexists. split; [reflexivity|]. vm_compute. repeat split. eexists. split; reflexivity. Qed.
 Print Assumptions C04_remove_first_update_refuted.
 
-(* Beyond one contested key: insert_array pre-checks all values and then re-checks each one under its entry lock.
-   A writer that takes [v] between the two leaves the loop stopped at [v] with [x] already applied (the code
-   documents this).  add_impl recorded the index before the insert, so its rollback removes [x] again;
-   update_impl records only after a successful update (generated fact update_records_after_update), so for it the
-   posting (x -> id1) stays although the update was rejected.  Explored on the implementation by the multi-thread
-   "wide array" rounds of the harness. *)
-Theorem C04_conc_array_update_partial_refuted :
+(* ---------- beyond one contested key: array updates over several keys (the race found on the implementation) ---------- *)
+(* insert_array pre-checks all values and then re-checks each one under its entry lock; a writer that takes [v]
+   between the two leaves the loop stopped at [v] with [x] already applied. *)
+Theorem C04_insert_array_partial_under_race :
   exists p id1 id2 x v p1 p',
     (existsb (conflict true p id1) [x; v] = false) /\
     (bt_insert true p id2 v = Some p1) /\
     (ins_loop true p1 id1 [x; v] = (p', false)) /\
-    (p' x = [id1]) /\ (update_records_after_update = true).
+    (p' x = [id1]).
 Proof.
   exists empty_post, 1%Z, 2%Z, (KS (SText "x")), (KS (SText "v")).
   eexists. eexists. split; [reflexivity|]. split; [reflexivity|]. split; [vm_compute; reflexivity|].
-  split; [vm_compute; reflexivity | reflexivity].
+  vm_compute; reflexivity.
 Qed.
+Print Assumptions C04_insert_array_partial_under_race.
+
+(* the code before fix 197295c (no reverse update on the failing index): a schedule of two writers after which the
+   rejected writer 1 still owns "x", which its document does not contain *)
+Theorem C04_conc_array_update_partial_refuted :
+  let s := run2 false (init2 post00 specs00) sched00 in
+  map a_pc (y_ws s) = [PErr; POk] /\ y_post s kx = [1%Z] /\ ~ In kx [ko1].
+Proof. exact conc2_without_compensation_leaks. Qed.
 Print Assumptions C04_conc_array_update_partial_refuted.
+
+(* the reverse update restores an index on which the forward update applied any subset S of its inserts and none
+   of its removals *)
+Theorem C04_compensation_restores_index :
+  forall u p p' id old new (S : list key),
+    compat old new -> owns p id (keys old) ->
+    (forall k id', In id' (p' k) <-> In id' (p k) \/ (id' = id /\ In k S)) ->
+    (forall k, In k S -> In k (keys new)) ->
+    snd (ix_update btree_update_insert_first u p' id new old) = true /\
+    peq p (fst (ix_update btree_update_insert_first u p' id new old)).
+Proof. exact compensate_restores. Qed.
+Print Assumptions C04_compensation_restores_index.
+
+(* the code as it is now: any number of writers, each replacing its key set in one unique array index, any
+   interleaving of pre-check / per-key test-and-insert / per-key removal / compensation steps: the index stays
+   unique, a finished writer owns exactly its new keys if it succeeded and exactly its old keys if it was
+   rejected, bystanders keep their postings *)
+Theorem C04_conc_rejected_array_update_leaves_nothing :
+  forall post0 specs sched,
+    NoDup (map (fun e : Z * list key * list key => fst (fst e)) specs) -> uniq_post post0 ->
+    Forall (fun e : Z * list key * list key => owns post0 (fst (fst e)) (snd (fst e))) specs ->
+    let s := run2 update_compensates_failed_index (init2 post0 specs) sched in
+    uniq_post (y_post s) /\
+    (forall w, In w (y_ws s) -> a_pc w = POk -> owns (y_post s) (a_id w) (a_new w)) /\
+    (forall w, In w (y_ws s) -> a_pc w = PErr -> owns (y_post s) (a_id w) (a_old w)) /\
+    (forall id, ~ In id (map a_id (y_ws s)) -> forall k, In id (y_post s k) <-> In id (post0 k)).
+Proof. exact conc2_rejected_leaves_nothing. Qed.
+Print Assumptions C04_conc_rejected_array_update_leaves_nothing.
+
+Example C04_conc2_nonvacuous :
+  let s := run2 update_compensates_failed_index (init2 post00 specs00) sched00 in
+  map a_pc (y_ws s) = [PErr; POk] /\ y_post s kx = [] /\ y_post s kv = [2%Z] /\ y_post s ko1 = [1%Z].
+Proof. exact conc2_with_compensation_same_schedule. Qed.
 
 (* non-vacuity: a history with an accepted add, a rejected duplicate, a rejected update, a release and a re-use *)
 Example C04_history_nonvacuous :
   let h := [OAdd [("email"%string, VS (SText "a"))] NoFault; OAdd [("email"%string, VS (SText "a"))] NoFault;
             OAdd [("email"%string, VS (SText "b"))] NoFault; OUpdate 3 [("email"%string, VS (SText "a"))] NoFault;
             ORemove 1 NoFault; OUpdate 3 [("email"%string, VS (SText "a"))] NoFault] in
-  let '(s, rs) := run btree_update_insert_first sch0 (init ixs0) h in
+  let '(s, rs) := run btree_update_insert_first update_compensates_failed_index sch0 (init ixs0) h in
   rs = [RId 1; RErr EUnique; RId 3; RErr EUnique; RRemoved true; ROk] /\
   lookup s 0 (KS (SText "a")) = [3%Z] /\ lookup s 0 (KS (SText "b")) = [] /\ wf_indexes sch0 ixs0.
 Proof.
